@@ -86,11 +86,13 @@ pub struct RunOptions {
     /// interrupt after this many printed lines
     pub stop_after_lines: Option<usize>,
     pub running: Arc<AtomicBool>,
+    /// false: statistics-only run (DisplayOptions::print_result = false), nothing is printed
+    pub print_result: bool,
 }
 
 impl Default for RunOptions {
     fn default() -> Self {
-        RunOptions { format: OutputFormat::Json, single_result: true, stop_after_lines: None, running: Arc::new(AtomicBool::new(true)) }
+        RunOptions { format: OutputFormat::Json, single_result: true, stop_after_lines: None, running: Arc::new(AtomicBool::new(true)), print_result: true }
     }
 }
 
@@ -107,7 +109,7 @@ pub fn run_batch(tables: &Tables, statement: &Statement, files: &[PathBuf], opti
             }
         }
         let engine = ExecutionEngine::new(tables, statement);
-        let display = DisplayOptions { output_format: options.format.clone(), single_result: options.single_result, print_result: true };
+        let display = DisplayOptions { output_format: options.format.clone(), single_result: options.single_result, print_result: options.print_result };
         let printer = CapPrinter { lines: Vec::new(), stop_after: options.stop_after_lines, running: options.running.clone() };
         let mut executor = FileExecutor::with_output_printer(options.running.clone(), handles, display, printer, engine).expect("executor");
         let result = executor.execute().map_err(|e| format!("{}", e));
